@@ -16,6 +16,8 @@
 #include <algorithm>
 #include <numeric>
 #include <functional>
+#include <csignal>
+#include <unistd.h>
 
 namespace vh {
 
@@ -50,6 +52,14 @@ struct Case {              // one output line
     void write(FILE* f) { if (f) { fputs(os.str().c_str(), f); fputc('\n', f); } }
 };
 
+static char g_last_about[256] = "start";
+static int g_rank = 0;
+inline void crash_handler(int sig) {
+    char buf[400]; int n = snprintf(buf, 400, "\nVERIF-CRASH rank=%d signal=%d while: %s\n", g_rank, sig, g_last_about);
+    if (n > 0) { ssize_t w = write(2, buf, (size_t)n); (void)w; }
+    signal(sig, SIG_DFL); raise(sig);
+}
+
 struct Env {
     int rank = 0, np = 1;
     long long seed = 1;
@@ -58,9 +68,10 @@ struct Env {
     long long only = -1;   // replay: emit only this case index
     long long counter = 0;
     FILE* prog = nullptr;  // rank 0: what is about to run (read by check.py after a crash)
-    void about(const char* what) { if (prog) { rewind(prog); fprintf(prog, "%-200s\n", what); fflush(prog); } }
+    void about(const char* what) { snprintf(g_last_about, 256, "%s", what); if (prog) { rewind(prog); fprintf(prog, "%-200s\n", what); fflush(prog); } }
     void init(int argc, char** argv) {
         MPI_Comm_rank(MPI_COMM_WORLD, &rank); MPI_Comm_size(MPI_COMM_WORLD, &np);
+        g_rank = rank; signal(SIGSEGV, crash_handler); signal(SIGABRT, crash_handler); signal(SIGFPE, crash_handler);
         const char* s = getenv("VERIF_SEED"); if (s && *s) seed = atoll(s);
         const char* t = getenv("VERIF_TIER"); if (t && !strcmp(t, "thorough")) thorough = true;
         const char* o = getenv("VERIF_ONLY"); if (o && *o) only = atoll(o);
